@@ -34,6 +34,8 @@ let dispatch (t : string list) : string =
   | "exprfull" :: b :: rest -> Cases.run_expr_full (backend_of b) (Sexp.parse (String.concat " " rest))
   | "inject" :: b :: rest -> Cases.run_inject (backend_of b) (Sexp.parse (String.concat " " rest))
   | "entry" :: b :: rest -> Cases.run_entry (backend_of b) (Sexp.parse (String.concat " " rest))
+  | "sepdbg" :: b :: rest -> Cases.run_sepdbg (backend_of b) (Sexp.parse (String.concat " " rest))
+  | "sep" :: b :: rest -> Cases.run_sep (backend_of b) (Sexp.parse (String.concat " " rest))
   | "stmt" :: b :: rest -> Cases.run_stmt (backend_of b) (Sexp.parse (String.concat " " rest))
   | ["etok"; b; h] ->
       (match eng_tokens (backend_of b) (str_of_hex h) with
